@@ -54,6 +54,121 @@ theorem specRows_sendT_ge (st : EcuState) (c : Nat) (h : List Exchange) :
       · simp at hr
     · have := ih _ _ r hr; omega
 
+/-! ### the writer -/
+
+theorem Writer.step_all {α : Type} (w : Writer α) (c : WChoice) : (w.step c).all = w.all := by
+  cases c <;> simp only [Writer.step, Writer.all]
+  · split
+    · next r q h1 h2 => simp [h1, h2]
+    · rfl
+  · split
+    · next r h1 => simp [h1, List.append_assoc]
+    · rfl
+  · split <;> rfl
+  · split <;> rfl
+
+theorem Writer.put_all {α : Type} (w : Writer α) (r : α) : (w.put r).all = w.all ++ [r] := by
+  simp [Writer.put, Writer.all, List.append_assoc]
+
+/-- `join()` accounting: the counter of unfinished tasks is the number of rows queued or in flight -/
+def Writer.Counted {α : Type} (w : Writer α) : Prop := w.unfinished = w.queue.length + w.inflight.toList.length
+
+theorem Writer.Counted.step {α : Type} {w : Writer α} (hc : w.Counted) (c : WChoice) : (w.step c).Counted := by
+  unfold Writer.Counted at *
+  cases c <;> simp only [Writer.step]
+  · split
+    · next r q h1 h2 => simp_all <;> omega
+    · exact hc
+  · split
+    · next r h1 => simp_all
+    · exact hc
+  · split <;> exact hc
+  · split <;> exact hc
+
+theorem Writer.Counted.put {α : Type} {w : Writer α} (hc : w.Counted) (r : α) : (w.put r).Counted := by
+  unfold Writer.Counted at *
+  simp [Writer.put, hc]; omega
+
+/-- failed attempts change nothing but the warning counter (and remember that the statement was executed) -/
+theorem Writer.exec_retries {α : Type} (w : Writer α) (r : α) (hi : w.inflight = some r) (k : Nat) :
+    w.exec (List.replicate k .retry) = { w with retries := w.retries + k } := by
+  induction k generalizing w with
+  | zero => simp [Writer.exec]
+  | succ n ih =>
+    have h1 : (w.step .retry) = { w with retries := w.retries + 1 } := by simp [Writer.step, hi]
+    have h2 : (w.step .retry).inflight = some r := by simp [h1, hi]
+    simp only [Writer.exec, List.replicate_succ, List.foldl_cons]
+    have := ih (w.step .retry) h2
+    simp only [Writer.exec] at this
+    rw [this, h1]
+    simp [Nat.add_assoc, Nat.add_comm 1 n]
+
+theorem Writer.exec_commitFails {α : Type} (w : Writer α) (r : α) (hi : w.inflight = some r) (m : Nat) (hm : 0 < m) :
+    w.exec (List.replicate m .commitFail) = { w with executed := true, retries := w.retries + m } := by
+  induction m generalizing w with
+  | zero => omega
+  | succ n ih =>
+    have h1 : (w.step .commitFail) = { w with executed := true, retries := w.retries + 1 } := by simp [Writer.step, hi]
+    simp only [Writer.exec, List.replicate_succ, List.foldl_cons]
+    rcases Nat.eq_zero_or_pos n with hn | hn
+    · subst hn; simp [h1]
+    · have h2 : (w.step .commitFail).inflight = some r := by simp [h1, hi]
+      have := ih (w.step .commitFail) h2 hn
+      simp only [Writer.exec] at this
+      rw [this, h1]
+      simp [Nat.add_assoc, Nat.add_comm 1 n]
+
+theorem Writer.exec_append {α : Type} (w : Writer α) (a b : List WChoice) : w.exec (a ++ b) = (w.exec a).exec b := by
+  simp [Writer.exec, List.foldl_append]
+
+/-- one row through the consumer: however often its `execute` and its `commit` fail first, it ends up in the table right
+    after the rows before it, once -/
+theorem Writer.exec_row {α : Type} (w : Writer α) (r : α) (q : List α) (hi : w.inflight = none) (hq : w.queue = r :: q)
+    (k m : Nat) :
+    let w' := w.exec (rowSched k m)
+    w'.queue = q ∧ w'.inflight = none ∧ w'.db = w.db ++ [r] ∧ w'.unfinished = w.unfinished - 1 ∧
+    w'.retries = w.retries + k + m := by
+  have hget : w.step .get = { w with inflight := some r, queue := q, executed := false } := by
+    simp [Writer.step, hi, hq]
+  simp only [rowSched, Writer.exec_append]
+  have e1 : w.exec [.get] = w.step .get := rfl
+  rw [e1, hget]
+  rw [Writer.exec_retries _ r rfl k]
+  rcases Nat.eq_zero_or_pos m with hm | hm
+  · subst hm
+    simp [Writer.exec, Writer.step]
+  · rw [Writer.exec_commitFails _ r rfl m hm]
+    simp [Writer.exec, Writer.step, Nat.add_assoc]
+
+/-- the whole backlog, row after row, each with its own number of failed attempts -/
+theorem Writer.exec_drain {α : Type} (w : Writer α) (hi : w.inflight = none) (faults : List (Nat × Nat))
+    (hl : faults.length = w.queue.length) :
+    let w' := w.exec (faults.flatMap fun f => rowSched f.1 f.2)
+    w'.queue = [] ∧ w'.inflight = none ∧ w'.db = w.db ++ w.queue ∧ w'.unfinished = w.unfinished - w.queue.length ∧
+    w'.retries = w.retries + (faults.map fun f => f.1 + f.2).sum := by
+  induction faults generalizing w with
+  | nil =>
+    have : w.queue = [] := by
+      cases hq : w.queue with
+      | nil => rfl
+      | cons a b => simp [hq] at hl
+    simp [Writer.exec, this, hi]
+  | cons f fs ih =>
+    cases hq : w.queue with
+    | nil => simp [hq] at hl
+    | cons r q =>
+      obtain ⟨h1, h2, h3, h4, h5⟩ := Writer.exec_row w r q hi hq f.1 f.2
+      have hl' : fs.length = (w.exec (rowSched f.1 f.2)).queue.length := by
+        rw [h1]; simp [hq] at hl; exact hl
+      obtain ⟨g1, g2, g3, g4, g5⟩ := ih (w.exec (rowSched f.1 f.2)) h2 hl'
+      simp only [List.flatMap_cons, Writer.exec_append]
+      refine ⟨g1, g2, ?_, ?_, ?_⟩
+      · rw [g3, h3, h1]; simp
+      · rw [g4, h4, h1]; simp; omega
+      · rw [g5, h5]; simp; omega
+
+theorem Writer.empty_all {α : Type} : (Writer.empty : Writer α).all = [] := rfl
+
 /-! ### draining the queue -/
 
 theorem drainQueue_eq (db q : List Row) : drainQueue db q = db ++ q := by
@@ -61,23 +176,23 @@ theorem drainQueue_eq (db q : List Row) : drainQueue db q = db ++ q := by
   | nil => simp [drainQueue]
   | cons r q ih => simp [drainQueue, ih]
 
-theorem afterDisconnect_eq (s : Sys) : afterDisconnect s = s.db ++ s.inflight.toList ++ s.queue := by
+theorem afterDisconnect_eq (s : Sys) : afterDisconnect s = s.toWriter.all := by
   unfold afterDisconnect
   cases h : s.inflight with
-  | none => simp [drainQueue_eq]
-  | some r => simp [step, h, drainQueue_eq]
+  | none => simp [drainQueue_eq, Writer.all, h]
+  | some r => simp [step, Writer.step, h, drainQueue_eq, Writer.all]
 
 /-! ### the invariant -/
 
 /-- committed ++ in flight ++ queued = the rows of the exchanges performed so far, in order; the client-side
     state and the clock are those of the specification fold -/
 structure Inv (s : Sys) : Prop where
-  rows : s.db ++ s.inflight.toList ++ s.queue = specRows .init 0 s.done
+  rows : s.toWriter.all = specRows .init 0 s.done
   ecu : s.ecu = specState .init s.done
   clock : s.clock = specClock 0 s.done
 
 theorem Inv.init (h : List Exchange) : Inv (Sys.init h) := by
-  constructor <;> simp [Sys.init, specRows, specState, specClock]
+  constructor <;> simp [Sys.init, specRows, specState, specClock, Writer.empty_all]
 
 theorem Inv.logStep {s : Sys} (hi : Inv s) (rest : List Exchange) (e : Exchange) :
     Inv (logStep { s with todo := rest } e) := by
@@ -86,8 +201,7 @@ theorem Inv.logStep {s : Sys} (hi : Inv s) (rest : List Exchange) (e : Exchange)
   by_cases himp : e.implicitOn
   · simp only [himp, if_true]
     constructor
-    · simp only [specRows_append, specRows_single, himp, if_true, ← hr, ← he, ← hc]
-      simp [List.append_assoc]
+    · simp only [specRows_append, specRows_single, himp, if_true, Writer.put_all, hr, ← he, ← hc]
     · simp [specState_append, specState, he]
     · simp [specClock_append, specClock, hc, Nat.add_assoc]
   · simp only [himp, Bool.false_eq_true, if_false]
@@ -97,78 +211,9 @@ theorem Inv.logStep {s : Sys} (hi : Inv s) (rest : List Exchange) (e : Exchange)
     · simp [specState_append, specState, he]
     · simp [specClock_append, specClock, hc, Nat.add_assoc]
 
-theorem Inv.step {s : Sys} (hi : Inv s) (c : Choice) (hc : c ≠ .retry) : Inv (step s c) := by
-  cases c with
-  | retry => exact absurd rfl hc
-  | prod =>
-    simp only [DbLog.step]
-    split
-    · exact hi
-    · split
-      · exact hi
-      · exact hi.logStep _ _
-  | cancelIn =>
-    simp only [DbLog.step]
-    split
-    · exact hi
-    · split
-      · exact ⟨hi.rows, hi.ecu, hi.clock⟩
-      · have := hi.logStep [] { (‹Exchange›) with out := Outcome.cancelled }
-        exact ⟨this.rows, this.ecu, this.clock⟩
-  | cancel => exact ⟨hi.rows, hi.ecu, hi.clock⟩
-  | get =>
-    simp only [DbLog.step]
-    split
-    · next r q h1 h2 =>
-      obtain ⟨hr, he, hc'⟩ := hi
-      exact ⟨by simpa [h1, h2] using hr, he, hc'⟩
-    · exact hi
-  | commit =>
-    simp only [DbLog.step]
-    split
-    · next r h1 =>
-      obtain ⟨hr, he, hc'⟩ := hi
-      exact ⟨by simpa [h1, List.append_assoc] using hr, he, hc'⟩
-    · exact hi
-
-theorem Inv.exec {s : Sys} (hi : Inv s) (sched : List Choice) (hr : Choice.retry ∉ sched) :
-    Inv (exec s sched) := by
-  induction sched generalizing s with
-  | nil => exact hi
-  | cons c cs ih =>
-    simp only [List.mem_cons, not_or] at hr
-    exact ih (hi.step c (fun h => hr.1 h.symm)) hr.2
-
-/-! ### the same invariant up to order, valid also under write failures that re-queue a row -/
-
-structure PInv (s : Sys) : Prop where
-  rows : (s.db ++ s.inflight.toList ++ s.queue).Perm (specRows .init 0 s.done)
-  ecu : s.ecu = specState .init s.done
-  clock : s.clock = specClock 0 s.done
-
-theorem PInv.init (h : List Exchange) : PInv (Sys.init h) := by
-  constructor <;> simp [Sys.init, specRows, specState, specClock]
-
-theorem PInv.logStep {s : Sys} (hi : PInv s) (rest : List Exchange) (e : Exchange) :
-    PInv (logStep { s with todo := rest } e) := by
-  obtain ⟨hr, he, hc⟩ := hi
-  unfold DbLog.logStep
-  by_cases himp : e.implicitOn
-  · simp only [himp, if_true]
-    constructor
-    · simp only [specRows_append, specRows_single, himp, if_true, ← he, ← hc]
-      have := hr.append_right [mkRow s.ecu (s.clock + e.dSend) (s.clock + e.dSend + e.dRecv) e]
-      simpa [List.append_assoc] using this
-    · simp [specState_append, specState, he]
-    · simp [specClock_append, specClock, hc, Nat.add_assoc]
-  · simp only [himp, Bool.false_eq_true, if_false]
-    constructor
-    · simp only [specRows_append, specRows_single, himp]
-      simpa using hr
-    · simp [specState_append, specState, he]
-    · simp [specClock_append, specClock, hc, Nat.add_assoc]
-
-theorem PInv.step {s : Sys} (hi : PInv s) (c : Choice) : PInv (step s c) := by
+/-- every scheduler choice preserves the invariant - write failures included: a failed `execute` or `commit` leaves the
+    row in flight, so it keeps its place -/
+theorem Inv.step {s : Sys} (hi : Inv s) (c : Choice) : Inv (step s c) := by
   cases c with
   | prod =>
     simp only [DbLog.step]
@@ -186,32 +231,12 @@ theorem PInv.step {s : Sys} (hi : PInv s) (c : Choice) : PInv (step s c) := by
       · have := hi.logStep [] { (‹Exchange›) with out := Outcome.cancelled }
         exact ⟨this.rows, this.ecu, this.clock⟩
   | cancel => exact ⟨hi.rows, hi.ecu, hi.clock⟩
-  | get =>
-    simp only [DbLog.step]
-    split
-    · next r q h1 h2 =>
-      obtain ⟨hr, he, hc'⟩ := hi
-      exact ⟨by simpa [h1, h2] using hr, he, hc'⟩
-    · exact hi
-  | commit =>
-    simp only [DbLog.step]
-    split
-    · next r h1 =>
-      obtain ⟨hr, he, hc'⟩ := hi
-      exact ⟨by simpa [h1, List.append_assoc] using hr, he, hc'⟩
-    · exact hi
-  | retry =>
-    simp only [DbLog.step]
-    split
-    · next r h1 =>
-      obtain ⟨hr, he, hc'⟩ := hi
-      refine ⟨?_, he, hc'⟩
-      simp only [h1, Option.toList_some, Option.toList_none, List.append_nil, List.append_assoc] at hr ⊢
-      refine List.Perm.trans ?_ hr
-      exact List.Perm.append_left _ (List.perm_append_comm)
-    · exact hi
+  | get => exact ⟨by simpa [DbLog.step, Writer.step_all] using hi.rows, hi.ecu, hi.clock⟩
+  | commit => exact ⟨by simpa [DbLog.step, Writer.step_all] using hi.rows, hi.ecu, hi.clock⟩
+  | retry => exact ⟨by simpa [DbLog.step, Writer.step_all] using hi.rows, hi.ecu, hi.clock⟩
+  | commitFail => exact ⟨by simpa [DbLog.step, Writer.step_all] using hi.rows, hi.ecu, hi.clock⟩
 
-theorem PInv.exec {s : Sys} (hi : PInv s) (sched : List Choice) : PInv (exec s sched) := by
+theorem Inv.exec {s : Sys} (hi : Inv s) (sched : List Choice) : Inv (exec s sched) := by
   induction sched generalizing s with
   | nil => exact hi
   | cons c cs ih => exact ih (hi.step c)
@@ -281,21 +306,10 @@ theorem Prog.step {h : List Exchange} {s : Sys} (hp : Prog h s) (c : Choice) : P
     cases hs : s.stopped with
     | true => exact h2 hs
     | false => exact ⟨s.done, s.todo, (h1 hs).symm, Or.inl rfl⟩
-  | get =>
-    simp only [DbLog.step]
-    split
-    · exact ⟨h1, h2⟩
-    · exact ⟨h1, h2⟩
-  | commit =>
-    simp only [DbLog.step]
-    split
-    · exact ⟨h1, h2⟩
-    · exact ⟨h1, h2⟩
-  | retry =>
-    simp only [DbLog.step]
-    split
-    · exact ⟨h1, h2⟩
-    · exact ⟨h1, h2⟩
+  | get => exact ⟨h1, h2⟩
+  | commit => exact ⟨h1, h2⟩
+  | retry => exact ⟨h1, h2⟩
+  | commitFail => exact ⟨h1, h2⟩
 
 theorem Prog.exec {h : List Exchange} {s : Sys} (hp : Prog h s) (sched : List Choice) : Prog h (exec s sched) := by
   induction sched generalizing s with
@@ -312,10 +326,16 @@ theorem performed_prefix (h : List Exchange) (sched : List Choice) :
 
 /-! ### the `join()` counter -/
 
-def Counted (s : Sys) : Prop := s.unfinished = s.queue.length + s.inflight.toList.length
+def Counted (s : Sys) : Prop := s.toWriter.Counted
+
+theorem logStep_counted {s : Sys} (hc : Counted s) (e : Exchange) : Counted (logStep s e) := by
+  unfold Counted at *
+  unfold logStep
+  split
+  · exact hc.put _
+  · exact hc
 
 theorem Counted.step {s : Sys} (hc : Counted s) (c : Choice) : Counted (step s c) := by
-  unfold Counted at *
   cases c with
   | prod =>
     simp only [DbLog.step]
@@ -323,34 +343,165 @@ theorem Counted.step {s : Sys} (hc : Counted s) (c : Choice) : Counted (step s c
     · exact hc
     · split
       · exact hc
-      · unfold logStep; split <;> simp_all <;> omega
+      · next e rest ht => exact logStep_counted (s := { s with todo := rest }) hc e
   | cancelIn =>
     simp only [DbLog.step]
     split
     · exact hc
     · split
       · exact hc
-      · unfold logStep; split <;> simp_all <;> omega
+      · next e rest ht => exact logStep_counted (s := { s with todo := [] }) hc { e with out := Outcome.cancelled }
   | cancel => exact hc
-  | get =>
-    simp only [DbLog.step]
-    split
-    · next r q h1 h2 => simp_all <;> omega
-    · exact hc
-  | commit =>
-    simp only [DbLog.step]
-    split
-    · next r h1 => simp_all
-    · exact hc
-  | retry =>
-    simp only [DbLog.step]
-    split
-    · next r h1 => simp_all
-    · exact hc
+  | get => exact Writer.Counted.step hc .get
+  | commit => exact Writer.Counted.step hc .commit
+  | retry => exact Writer.Counted.step hc .retry
+  | commitFail => exact Writer.Counted.step hc .commitFail
 
 theorem Counted.exec {s : Sys} (hc : Counted s) (sched : List Choice) : Counted (exec s sched) := by
   induction sched generalizing s with
   | nil => exact hc
   | cons c cs ih => exact ih (hc.step c)
+
+/-! ### the scanner-level implicit-logging switch -/
+
+def Flag.run (f : Flag) (es : List LEvent) : Flag := es.foldl Flag.step f
+
+theorem flagsAt_append (f : Flag) (a b : List LEvent) : flagsAt f (a ++ b) = flagsAt f a ++ flagsAt (f.run a) b := by
+  induction a generalizing f with
+  | nil => rfl
+  | cons e es ih =>
+    cases e <;> simp [flagsAt, Flag.run, Flag.step, ih] <;> rfl
+
+/-- the database is open and the ECU object carries the value the scanner asked for -/
+def Flag.Synced (f : Flag) : Prop := f.db = true ∧ f.ecu = some f.stored
+
+theorem Flag.Synced.step {f : Flag} (h : f.Synced) (e : LEvent) (he : e ≠ .createEcu) : (f.step e).Synced := by
+  obtain ⟨h1, h2⟩ := h
+  cases e with
+  | createEcu => exact absurd rfl he
+  | set v => simp [Flag.step, Flag.Synced, h1, h2]
+  | openDb => simp [Flag.step, Flag.Synced, h2]
+  | apply => simp [Flag.step, Flag.Synced, h1, h2]
+  | request => exact ⟨h1, h2⟩
+
+theorem flagsAt_synced (f : Flag) (h : f.Synced) (es : List LEvent) (hno : LEvent.createEcu ∉ es) :
+    ∀ p ∈ flagsAt f es, p.1 = p.2 := by
+  induction es generalizing f with
+  | nil => simp [flagsAt]
+  | cons e es ih =>
+    have hne : e ≠ .createEcu := fun hx => hno (by simp [hx])
+    have hno' : LEvent.createEcu ∉ es := fun hx => hno (by simp [hx])
+    cases e with
+    | request =>
+      intro p hp
+      simp only [flagsAt, List.mem_cons] at hp
+      rcases hp with hp | hp
+      · subst hp; simp [h.2]
+      · exact ih f h hno' p hp
+    | createEcu => exact absurd rfl hne
+    | set v => simpa [flagsAt] using ih _ (h.step (.set v) (by simp)) hno'
+    | openDb => simpa [flagsAt] using ih _ (h.step .openDb (by simp)) hno'
+    | apply => simpa [flagsAt] using ih _ (h.step .apply (by simp)) hno'
+
+/-- assignments only: no request is made, the database flag is kept -/
+theorem sets_only (f : Flag) (es : List LEvent) (h : ∀ e ∈ es, ∃ v, e = .set v) :
+    flagsAt f es = [] ∧ (f.run es).db = f.db ∧ (f.ecu = none → (f.run es).ecu = none) := by
+  induction es generalizing f with
+  | nil => simp [flagsAt, Flag.run]
+  | cons e es ih =>
+    obtain ⟨v, hv⟩ := h e (by simp)
+    subst hv
+    have := ih (f.step (.set v)) (fun e he => h e (by simp [he]))
+    refine ⟨by simpa [flagsAt] using this.1, by simpa [Flag.run, Flag.step] using this.2.1, ?_⟩
+    intro hn
+    have h3 := this.2.2 (by simp [Flag.step, hn])
+    simpa [Flag.run] using h3
+
+theorem Flag.Synced.run {f : Flag} (h : f.Synced) (es : List LEvent) (hno : LEvent.createEcu ∉ es) : (f.run es).Synced := by
+  induction es generalizing f with
+  | nil => exact h
+  | cons e es ih =>
+    have hne : e ≠ .createEcu := fun hx => hno (by simp [hx])
+    exact ih (h.step e hne) (fun hx => hno (by simp [hx]))
+
+theorem tokenEvents_no_create (ts : List String) (h : ts.contains "create-ecu" = false) :
+    LEvent.createEcu ∉ tokenEvents ts := by
+  induction ts with
+  | nil => simp [tokenEvents]
+  | cons t ts ih =>
+    simp only [List.contains_cons, Bool.or_eq_false_iff] at h
+    have ht : t ≠ "create-ecu" := by
+      intro hx; subst hx; simp at h
+    have := ih h.2
+    simp only [tokenEvents, ht, if_false, List.mem_append]
+    rintro (hx | hx)
+    · split at hx
+      · simp at hx
+      · split at hx <;> simp at hx
+    · exact this hx
+
+/-- after the ECU object exists (database open): a rest that passes `appliedAfterCreate` makes no unsynced request and ends
+    synced -/
+theorem appliedAfterCreate_sound (ts : List String) (h : appliedAfterCreate ts = true) (f : Flag) (hdb : f.db = true)
+    (hecu : f.ecu.isSome = true) :
+    (∀ p ∈ flagsAt f (tokenEvents ts), p.1 = p.2) ∧ (f.run (tokenEvents ts)).Synced := by
+  induction ts generalizing f with
+  | nil => simp [appliedAfterCreate] at h
+  | cons t r ih =>
+    simp only [appliedAfterCreate] at h
+    by_cases h1 : t = "apply"
+    · subst h1
+      simp only [if_true, Bool.not_eq_true'] at h
+      have hno := tokenEvents_no_create r h
+      obtain ⟨v, hv⟩ := Option.isSome_iff_exists.mp hecu
+      have hs : (f.step .apply).Synced := by simp [Flag.step, Flag.Synced, hdb, hv]
+      have he : tokenEvents ("apply" :: r) = .apply :: tokenEvents r := by simp [tokenEvents]
+      rw [he]
+      refine ⟨?_, ?_⟩
+      · simpa [flagsAt] using flagsAt_synced _ hs _ hno
+      · simpa [Flag.run] using hs.run _ hno
+    · simp only [h1, if_false] at h
+      by_cases h2 : t = "request"
+      · simp [h2] at h
+      · simp only [h2, if_false] at h
+        by_cases h3 : t = "create-ecu"
+        · subst h3
+          have he : tokenEvents ("create-ecu" :: r) = .createEcu :: tokenEvents r := by simp [tokenEvents]
+          rw [he]
+          have := ih h (f.step .createEcu) (by simp [Flag.step, hdb]) (by simp [Flag.step])
+          exact ⟨by simpa [flagsAt] using this.1, by simpa [Flag.run] using this.2⟩
+        · have he : tokenEvents (t :: r) = tokenEvents r := by simp [tokenEvents, h1, h2, h3]
+          rw [he]
+          exact ih h f hdb hecu
+
+/-- a statement sequence that passes `appliedBeforeRequest`, run with the database open and no ECU object yet: every request
+    in it uses the value the scanner asked for, and it ends synced -/
+theorem applied_tokens (ts : List String) (h : appliedBeforeRequest ts = true) (f : Flag) (hdb : f.db = true)
+    (hecu : f.ecu = none) :
+    (∀ p ∈ flagsAt f (tokenEvents ts), p.1 = p.2) ∧ (f.run (tokenEvents ts)).Synced := by
+  induction ts generalizing f with
+  | nil => simp [appliedBeforeRequest] at h
+  | cons t r ih =>
+    simp only [appliedBeforeRequest] at h
+    by_cases h1 : t = "create-ecu"
+    · subst h1
+      simp only [if_true] at h
+      have he : tokenEvents ("create-ecu" :: r) = .createEcu :: tokenEvents r := by simp [tokenEvents]
+      rw [he]
+      have := appliedAfterCreate_sound r h (f.step .createEcu) (by simp [Flag.step, hdb]) (by simp [Flag.step])
+      exact ⟨by simpa [flagsAt] using this.1, by simpa [Flag.run] using this.2⟩
+    · simp only [h1, if_false] at h
+      by_cases h2 : t = "request"
+      · simp [h2] at h
+      · simp only [h2, if_false] at h
+        by_cases h3 : t = "apply"
+        · subst h3
+          have he : tokenEvents ("apply" :: r) = .apply :: tokenEvents r := by simp [tokenEvents]
+          rw [he]
+          have := ih h (f.step .apply) (by simp [Flag.step, hdb]) (by simp [Flag.step, hecu])
+          exact ⟨by simpa [flagsAt] using this.1, by simpa [Flag.run] using this.2⟩
+        · have he : tokenEvents (t :: r) = tokenEvents r := by simp [tokenEvents, h1, h2, h3]
+          rw [he]
+          exact ih h f hdb hecu
 
 end Gallia.DbLog
